@@ -169,6 +169,10 @@ def mux_history(rng, cid, cfg=None, nv=None, na=None, bframes=None, rejects=0, f
                 c.o("fin", rng.choice([0, 1]))
             else:
                 c.o("wvd", fb(1e6), fb(1e6), hx(video_delta(rng, codec)), 0)
+        if rng.chance(1, 2):
+            # a late finish attempt through one of the CONSUMING variants (finish / finish_with_stats / flush):
+            # it must be rejected like every other call after a successful finish; nothing may follow it
+            c.o("fin", rng.choice([2, 3, 4, 4]))
     return c
 
 
@@ -267,7 +271,7 @@ def fam_contract(rng, n, prefix):
                 c.o("ea", hx(a), "%x" % rng.choice([0, 960, 1024]))
             else:
                 c.o("fin", rng.choice([0, 1]))
-        c.o("fin", 0)
+        c.o("fin", rng.choice([0, 0, 1, 2, 3, 4]))
         out.append(c)
     return out
 
@@ -310,10 +314,34 @@ def fam_sink(rng, n, prefix):
     return out
 
 
+def fam_sink_sweep(rng, n, prefix):
+    """one transient fault at the k-th write of finish, for every k up to the last write of a small file and
+    for every injected error kind (WouldBlock / TimedOut included), possibly after a short write, the sink
+    accepting everything again afterwards: the bytes accepted must stay a prefix of the fault-free file,
+    finish must report the error, and nothing may be written after it"""
+    out = []
+    start = rng.below(1000)
+    for i in range(n):
+        j = start + i
+        k = j % 9                      # index of the failing write
+        kind = (j // 9) % 9            # injected ErrorKind
+        fast = (j // 81) % 2
+        partial = rng.choice([None, None, 1, 5, 8, 100])
+        evs = ["a%x" % 10**6] * k
+        if partial is not None:
+            evs.append("a%x" % partial)
+        evs.append("f%x" % kind)
+        cfg = rand_cfg(rng, fast=fast, audio=rng.choice(["none-cfg", "aac-lc"]), dims=(640, 480), meta=rng.choice([0, 1]))
+        cfg["rate"], cfg["ch"] = 48000, 2
+        out.append(mux_history(rng, "%s%d" % (prefix, i), cfg=cfg, nv=rng.range(1, 3), na=rng.range(0, 2), rejects=0,
+                               fin=rng.choice([0, 1]), post=2, sink=evs))
+    return out
+
+
 # ---------- fragmented (C10/C11) ----------
-def frag_builder(rng, c, codec=None):
+def frag_builder(rng, c, codec=None, stray_always=False):
     codec = codec or rng.choice(VCODECS)
-    omit = rng.below(12)          # 0..3: leave one required parameter out (new_with_fragment must return an error)
+    omit = 11 if stray_always else rng.below(12)          # 0..3: leave one required parameter out (new_with_fragment must return an error)
     if omit != 0:
         c.b("video", codec, "%x" % rng.choice([1920, 640, 65536, 0]), "%x" % rng.choice([1080, 480]))
     if codec in ("h264", "h265"):
@@ -333,6 +361,19 @@ def frag_builder(rng, c, codec=None):
     else:
         c.b("vp9", *["%x" % x for x in [rng.below(4096), rng.below(4096), rng.below(4), rng.choice([8, 10, 12]),
                                          rng.below(8), rng.below(8), rng.below(2), 0, rng.below(2)]])
+    if rng.chance(1, 3) or stray_always:
+        # a stray parameter that belongs to ANOTHER codec: it must not change which sample entry is written
+        stray = rng.choice({"h264": ["vps", "av1seq", "vp9"], "h265": ["av1seq", "vp9"], "av1": ["vps", "sps", "vp9"],
+                            "vp9": ["vps", "sps", "av1seq"]}[codec])
+        if stray == "vps" and codec != "h265":
+            c.b("vps", hx(rng.bytes(rng.range(0, 12))))
+        elif stray == "sps" and codec in ("av1", "vp9"):
+            c.b("sps", hx(bytes.fromhex("6742001eda02802d8b11")))
+            c.b("pps", hx(bytes.fromhex("68ce3880")))
+        elif stray == "av1seq" and codec != "av1":
+            c.b("av1seq", hx(obu(1, av1_seq_payload_simple(rng))))
+        elif stray == "vp9" and codec != "vp9":
+            c.b("vp9", "280", "1e0", "0", "8", "2", "2", "0", "0", "1")
     c.meta["codec"] = codec
 
 
@@ -393,6 +434,47 @@ def fam_frag(rng, n, prefix):
                 c.o("fi")
         c.o("ff")
         c.o("fi")
+        out.append(c)
+    return out
+
+
+def fam_frag_init(rng, n, prefix):
+    """fragmented builder configurations (each codec, with and without parameters that belong to another
+    codec), the init segment, one key frame, one segment: what the sample description of a fragmented
+    stream says (C07/C19)"""
+    out = []
+    for i in range(n):
+        c = Case("%s%d" % (prefix, i), "frag")
+        frag_builder(rng, c, codec=VCODECS[i % len(VCODECS)], stray_always=(i % 2 == 0))
+        c.o("fi")
+        c.o("fw", "0", "0", hx(rng.bytes(rng.range(1, 9))), 1)
+        c.o("ff")
+        c.o("fi")
+        out.append(c)
+    return out
+
+
+def fam_dims(rng, n, prefix):
+    """progressive configurations whose width / height sit at the 16-bit limit of the sample entry: either
+    dimension alone, or both, above 65535 must make finish return an error (never a wrapped field, never a
+    panic); 65535 must be stored exactly"""
+    DIMS = [(65535, 65535), (65536, 480), (640, 65536), (65536, 65536), (70000, 1080), (1920, 2 ** 32 - 1),
+            (2 ** 32 - 1, 2 ** 32 - 1), (65535, 65536), (65536, 65535), (0, 0), (1, 65535), (131072, 131072)]
+    out = []
+    for i in range(n):
+        w, h = DIMS[i % len(DIMS)]
+        cfg = rand_cfg(rng, audio=rng.choice(["none-cfg", "aac-lc", "opus"]), dims=(w, h), meta=rng.choice([0, 0, 5]))
+        cfg["rate"], cfg["ch"] = 48000, 2
+        c = Case("%s%d" % (prefix, i), "mux")
+        emit_cfg(c, cfg, rng)
+        codec = cfg["codec"]
+        c.o("wv", fb(0.0), hx(video_key(rng, codec)), 1)
+        if has_audio(cfg):
+            c.o("wa", fb(0.0), hx(audio_frame(rng, cfg["audio"])))
+        c.o("wv", fb(0.04), hx(video_delta(rng, codec)), 0)
+        c.o("fin", rng.choice([0, 0, 1, 3]))
+        if rng.chance(1, 2):
+            c.o("fin", 0)      # a second attempt after a failed (or successful) finish
         out.append(c)
     return out
 
